@@ -160,6 +160,16 @@ Proof.
     now rewrite splice_ins by lia.
 Qed.
 
+Lemma pick_Forall {A} (P : A -> Prop) (L : list A) Js : Forall P L -> Forall P (pick L Js).
+Proof.
+  intros H. apply Forall_forall. intros p Hp. apply in_pick in Hp.
+  destruct Hp as (J & _ & _ & Hn). apply nth_error_In in Hn. rewrite Forall_forall in H. auto.
+Qed.
+
+Lemma positions_valid tags its :
+  Forall (fun p => 0 <= p < zlen its) (positions_from 0 tags its).
+Proof. eapply Forall_impl; [|apply positions_bounds]. intros a0 Ha0. cbv beta in *. lia. Qed.
+
 (* ---- del view[i], del view[a:b:k] --------------------------------------------------------------- *)
 Section Delete.
 Variables (s : st) (v : view).
@@ -178,16 +188,18 @@ Proof.
   destruct index as [i|sl].
   - unfold list_del_int. destruct (norm_index (zlen F) i) as [j|e] eqn:En.
     + apply norm_index_ok in En. destruct En as (Hj & _). cbn match.
+      rewrite raw_drop_many_valid by (apply pick_Forall, positions_valid).
       eexists. split; [reflexivity|].
-      unfold Fof, raw_drop_many, notify, with_items. cbn [fst items].
+      unfold Fof, notify, with_items. cbn [fst items].
       rewrite filtered_remove_pick. fold F. apply remove_range; lia.
     + apply norm_index_err in En. now destruct En as (-> & _).
   - unfold list_del_slice, range_getslice.
     destruct (slice_indices (zlen F) sl) as [[[a b] k]|e] eqn:E; [|reflexivity].
     assert (HR : exists s', raw_drop_many s (pick (positions_from 0 (v_tags v) (items s)) (range_list (mkrng a b k)))
                             = (s', OkNone) /\ Fof s' = remove_positions (range_list (mkrng a b k)) F).
-    { eexists. split; [reflexivity|].
-      unfold Fof, raw_drop_many, notify, with_items. cbn [fst items].
+    { rewrite raw_drop_many_valid by (apply pick_Forall, positions_valid).
+      eexists. split; [reflexivity|].
+      unfold Fof, notify, with_items. cbn [fst items].
       now rewrite filtered_remove_pick. }
     destruct (k =? 1) eqn:Ek; [|exact HR].
     assert (k = 1) by lia. subst k.
@@ -459,8 +471,10 @@ Proof.
   unfold v_discard. rewrite HV.
   pose proof (v_discard_sel_spec (v_tags v) (v_kind v) value (items s) []) as H.
   rewrite zlen_nil in H. cbn [app] in H. rewrite H.
+  rewrite raw_drop_many_valid.
+  2:{ apply Forall_forall. intros p Hp. apply positions_by_bounds in Hp. lia. }
   eexists. split; [reflexivity|].
-  unfold Fof, raw_drop_many, notify, with_items, remove_positions. cbn [fst items].
+  unfold Fof, notify, with_items, remove_positions. cbn [fst items].
   rewrite (remove_positions_by (fun e => matches (v_tags v) e && elem_eqb (from_raw (v_kind v) e) value))
     by (intros; reflexivity).
   apply filtered_discard.
@@ -684,3 +698,140 @@ Proof.
   unfold m_keys, m_values, m_items. repeat split; intros; now rewrite Hf.
 Qed.
 End Mapping.
+
+(* popitem(): the first item of the mapping *)
+Lemma m_popitem_spec s v raw :
+  ViewInv (items s) v -> v_kind v = KNode ->
+  match filtered (v_tags v) (items s) with
+  | [] => m_popitem raw s v = (s, Err KeyError)
+  | x :: F' => exists s', m_popitem raw s v = (s', Ok [mkelem 0 (e_key x) 0; if raw then x else value_of x])
+                          /\ filtered (v_tags v) (items s') = F'
+  end.
+Proof.
+  intros HV HK. unfold m_popitem.
+  pose proof (cache_entry (v_tags v) (items s) 0) as Hc. rewrite <- HV in Hc.
+  destruct (v_idx v) as [|p idx'] eqn:Ei; cbn [nth_error] in Hc.
+  - destruct (filtered (v_tags v) (items s)); [reflexivity|discriminate].
+  - destruct Hc as (x & Hx & Hg).
+    destruct (filtered (v_tags v) (items s)) as [|x0 F'] eqn:EF; [discriminate|].
+    cbn [nth_error] in Hx. inversion Hx; subst x0. rewrite Hg.
+    pose proof (m_pop_spec s v HV HK raw (e_key x) false) as Hp. cbv zeta in Hp. rewrite EF in Hp.
+    cbn [assoc_find] in Hp. rewrite Z.eqb_refl in Hp.
+    destruct Hp as (s' & Hr & Hf). rewrite Hr. exists s'. split; [reflexivity|].
+    rewrite Hf. unfold assoc_del. cbn [assoc_upd]. now rewrite Z.eqb_refl.
+Qed.
+
+(* ======== the raw list itself: every mutator is the Python list operation on `items` ============ *)
+Lemma set_slice_from_range {A} (l xs : list A) a b :
+  0 <= a <= zlen l -> 0 <= b <= zlen l ->
+  list_set_slice l (slice_from_range (mkrng a b 1)) xs = Ok (splice l a b xs).
+Proof.
+  intros Ha Hb. unfold slice_from_range. cbn [r_step r_start r_stop].
+  replace (b =? -1) with false by lia.
+  unfold list_set_slice, slice_indices. cbn [sl_step sl_start sl_stop]. cbn [Z.eqb Z.ltb Z.compare].
+  replace (a <? 0) with false by lia. replace (b <? 0) with false by lia.
+  replace (Z.min a (zlen l)) with a by lia. now replace (Z.min b (zlen l)) with b by lia.
+Qed.
+
+Lemma raw_setitem_slice_spec s sl xs :
+  match list_set_slice (items s) sl xs with
+  | Ok l => exists s', raw_setitem_slice true s sl xs = (s', OkNone) /\ items s' = l
+  | Err e => raw_setitem_slice true s sl xs = (s, Err e)
+  end.
+Proof.
+  unfold raw_setitem_slice, range_from_index, range_getslice.
+  assert (Hspec : list_set_slice (items s) sl xs =
+                  match slice_indices (zlen (items s)) sl with
+                  | Err e => Err e
+                  | Ok (a, b, k) =>
+                      if k =? 1 then Ok (splice (items s) a b xs)
+                      else if range_len (mkrng a b k) =? zlen xs
+                           then Ok (fst (assign_each (items s) (range_list (mkrng a b k)) xs))
+                           else Err ValueError
+                  end) by reflexivity.
+  rewrite Hspec. clear Hspec.
+  pose proof (zlen_nonneg (items s)) as Hn.
+  destruct (slice_indices (zlen (items s)) sl) as [[[a b] k]|e] eqn:E; [|reflexivity].
+  cbn [r_step r_start r_stop].
+  destruct (k =? 1) eqn:Ek.
+  - assert (k = 1) by lia. subst k.
+    destruct (slice_indices_range _ _ _ _ _ Hn E) as (_ & Hpos & _). destruct (Hpos ltac:(lia)).
+    rewrite set_slice_from_range by assumption. eexists. split; reflexivity.
+  - destruct (range_len (mkrng a b k) =? zlen xs); cbn [negb]; [|reflexivity].
+    pose proof (assign_each_ok (range_list (mkrng a b k)) (items s) xs
+                  (range_list_bounds _ _ _ _ _ Hn E)) as Hok.
+    destruct (assign_each (items s) (range_list (mkrng a b k)) xs) as [its [u|e]];
+      cbn [fst snd] in *; [|discriminate]. eexists. split; reflexivity.
+Qed.
+
+Lemma raw_list_semantics s :
+  let its := items s in
+  (forall i x, match list_set_int its i x with
+               | Ok l => exists s', raw_setitem true s (IInt i) [x] = (s', OkNone) /\ items s' = l
+               | Err e => raw_setitem true s (IInt i) [x] = (s, Err e) end)
+  /\ (forall sl xs, match list_set_slice its sl xs with
+                    | Ok l => exists s', raw_setitem true s (ISlice sl) xs = (s', OkNone) /\ items s' = l
+                    | Err e => raw_setitem true s (ISlice sl) xs = (s, Err e) end)
+  /\ (forall index,
+        match (match index with IInt i => list_del_int its i | ISlice sl => list_del_slice its sl end) with
+        | Ok l => exists s', raw_delitem true s index = (s', OkNone) /\ items s' = l
+        | Err e => raw_delitem true s index = (s, Err e) end)
+  /\ (forall i x, exists s', raw_insert true s i x = (s', OkNone) /\ items s' = list_insert its i x)
+  /\ (forall xs, exists s', raw_extend s xs = (s', OkNone) /\ items s' = its ++ xs)
+  /\ (forall x, exists s', raw_append s x = (s', OkNone) /\ items s' = its ++ [x])
+  /\ (exists s', raw_clear s = (s', OkNone) /\ items s' = [])
+  /\ (forall i, match list_pop its i with
+                | Ok (y, l) => exists s', raw_pop s i = (s', Ok [y]) /\ items s' = l
+                | Err e => raw_pop s i = (s, Err e) end)
+  /\ (forall ps, match norm_all (zlen its) ps with
+                 | Ok qs => exists s', raw_drop_many s ps = (s', OkNone) /\ items s' = remove_positions qs its
+                 | Err e => raw_drop_many s ps = (s, Err IndexError) end).
+Proof.
+  intros its. pose proof (zlen_nonneg its) as Hn. subst its.
+  split; [|split; [|split; [|split; [|split; [|split; [|split; [|split]]]]]]].
+  - intros i x. cbn [raw_setitem]. unfold raw_setitem_int, list_get_int, list_set_int.
+    destruct (norm_index (zlen (items s)) i) as [j|e] eqn:E; [|reflexivity].
+    pose proof (norm_index_ok _ _ _ E) as (Hj & _).
+    destruct (nth_error (items s) (Z.to_nat j)) eqn:En.
+    + eexists. split; reflexivity.
+    + apply nth_error_None in En. unfold zlen in Hj. lia.
+  - intros sl xs. exact (raw_setitem_slice_spec s sl xs).
+  - intros index. unfold raw_delitem, range_from_index. destruct index as [i|sl].
+    + unfold list_del_int. destruct (norm_index (zlen (items s)) i) as [j|e] eqn:E.
+      * pose proof (norm_index_ok _ _ _ E) as (Hj & _). cbn [r_step Z.eqb Pos.eqb].
+        pose proof (raw_setitem_slice_spec s (slice_from_range (mkrng j (j + 1) 1)) []) as H.
+        rewrite set_slice_from_range in H by lia. exact H.
+      * apply norm_index_err in E. now destruct E as (-> & _).
+    + unfold list_del_slice, range_getslice.
+      destruct (slice_indices (zlen (items s)) sl) as [[[a b] k]|e] eqn:E; [|reflexivity].
+      cbn [r_step]. destruct (k =? 1) eqn:Ek.
+      * assert (k = 1) by lia. subst k.
+        destruct (slice_indices_range _ _ _ _ _ Hn E) as (_ & Hpos & _). destruct (Hpos ltac:(lia)).
+        pose proof (raw_setitem_slice_spec s (slice_from_range (mkrng a b 1)) []) as Hs.
+        rewrite set_slice_from_range in Hs by lia. exact Hs.
+      * rewrite raw_drop_many_valid by (eapply range_list_bounds; eauto).
+        eexists. split; reflexivity.
+  - intros i x. eexists. split; [reflexivity|].
+    unfold raw_insert, notify_splice, with_items. cbn [fst items andb].
+    set (n := zlen (items s)) in *.
+    set (j := Z.min (if i <? 0 then Z.max (i + n) 0 else i) n).
+    assert (Hj : 0 <= j <= n) by (subst j; destruct (i <? 0) eqn:Ei; lia).
+    unfold list_insert. fold n. rewrite (insert_pos_id n j Hj).
+    assert (Hi : insert_pos n i = j).
+    { rewrite insert_pos_cases. subst j. split_ifs; lia. }
+    now rewrite Hi.
+  - intros xs. eexists. split; reflexivity.
+  - intros x. eexists. split; reflexivity.
+  - eexists. split; reflexivity.
+  - intros i. unfold raw_pop, range_from_index, list_pop.
+    destruct (list_get_int (items s) i) as [y|e] eqn:Eg; [|reflexivity].
+    destruct (norm_index (zlen (items s)) i) as [j|e] eqn:E.
+    + eexists. split; reflexivity.
+    + unfold list_get_int in Eg. rewrite E in Eg. discriminate.
+  - intros ps. unfold raw_drop_many.
+    destruct (norm_all (zlen (items s)) ps) as [qs|e] eqn:E.
+    + eexists. split; reflexivity.
+    + f_equal. f_equal. clear -E. revert e E. induction ps as [|p ps IH]; intros e E; [discriminate|].
+      cbn [norm_all] in E. destruct (norm_index (zlen (items s)) p); [|now inversion E].
+      destruct (norm_all (zlen (items s)) ps); [discriminate|]. inversion E; subst. now apply IH.
+Qed.
